@@ -214,8 +214,10 @@ func repeatMain(w *out.W, tier string) {
 				k++
 			}
 		}
-		final["2099_zz.sql"] = "CREATE TABLE zz (id int);\n"
-		d.WriteFile("2099_zz.sql", []byte(final["2099_zz.sql"]))
+		if v%2 == 1 { // also with a file added after the overwrites
+			final["2099_zz.sql"] = "CREATE TABLE zz (id int);\n"
+			d.WriteFile("2099_zz.sql", []byte(final["2099_zz.sql"]))
+		}
 		h1, err1 := d.Checksum()
 		fresh := &migrate.MemDir{}
 		for n, b := range final {
